@@ -296,7 +296,7 @@ pub fn checks(tier: Tier) -> Vec<Check> {
         v.push(Check {
             name: format!("C04.msm[{}]", label),
             strategy: msm_strategy(vec![0, 1, 2, 3, 8, 63, 64, 65], false),
-            cases: tier.scale(400, 20),
+            cases: tier.scale(1_200, 10),
             exec: forced_exec(kind),
             oracle: Box::new(crate::mops::oracle),
             classify: Box::new(classify),
@@ -307,7 +307,7 @@ pub fn checks(tier: Tier) -> Vec<Check> {
         v.push(Check {
             name: format!("C04.msm-large[{}]", label),
             strategy: msm_strategy(vec![189, 190, 191, 499, 500, 501, 799, 800, 801, 1000], true),
-            cases: tier.scale(24, 25),
+            cases: tier.scale(96, 10),
             exec: forced_exec(kind),
             oracle: Box::new(crate::mops::oracle),
             classify: Box::new(classify),
